@@ -759,7 +759,7 @@ def trace_for_tlc(t):
 def _gen_traffic(rng, kind, prop):
   """Random history after a normal open: traffic, completions, channel flips, membership."""
   if prop == 'C03':
-    n = rng.choice([5, 6, 6, 7, 7, 7, 8, 9])
+    n = rng.choice([1, 2, 3, 5, 6, 6, 7, 7, 7, 8, 9])
     nops = rng.randint(15, 45)
     w = dict(disp=50, comp=32, chan=5, leave=3, join=3, late=1, settle=2, adv=2, opendone=2)
   elif prop == 'C04':
@@ -894,6 +894,29 @@ def _family_c05(kinds=('heap', 'aperture')):
   return out
 
 
+def _family_small():
+  """Few or no members: the no-members path, the last member leaving (idle or loaded), re-joins."""
+  out = []
+  for kind in ('heap', 'aperture'):
+    for pol in ('auto', 'sync', 'manual'):
+      fam = [
+        ([], [['disp', 0, 0], ['disp', 1, 0], ['join', 1, -1], ['disp', 0, 0], ['leave', 1, -1], ['disp', 0, 0]]),
+        ([1], [['disp', 0, 0], ['comp', 0, 'reply', 0], ['leave', 1, -1], ['disp', 0, 0], ['join', 1, -1],
+               ['disp', 0, 0], ['leave', 1, -1], ['disp', 0, 0], ['comp', 0, 'timeout', 0], ['late', 0]]),
+        ([1, 2], [['disp', 0, 0], ['disp', 0, 0], ['leave', 1, -1], ['leave', 2, -1], ['disp', 0, 0],
+                  ['comp', 0, 'reply', 0], ['comp', 0, 'error', 0], ['disp', 0, 0], ['join', 2, -1], ['disp', 0, 0]]),
+        ([1, 2], [['chan', 0, 4], ['chan', 1, 4], ['disp', 0, 0], ['disp', 0, 1], ['leave', 1, -1], ['leave', 2, -1],
+                  ['disp', 0, 0]]),
+      ]
+      for s0, ops in fam:
+        sc = {'kind': kind, 's0': s0, 'rseed': 1, 'pol': pol, 'load': {'mode': 'nonblock'},
+              'ops': [['open'], ['settle']] + ops + [['probe']]}
+        if kind == 'aperture':
+          sc['ap'] = {'min_size': 1, 'max_size': 2, 'min_load': 0.5, 'max_load': 2.0}
+        out.append(sc)
+  return out
+
+
 def cases(prop, tier, seed):
   rng = random.Random(7919 * int(seed) + {'C03': 3, 'C04': 4, 'C05': 5}[prop])
   quick = tier == 'quick'
@@ -901,10 +924,12 @@ def cases(prop, tier, seed):
   if prop == 'C03':
     fam = _family_c03()
     out.extend(fam if not quick else fam[::2])
+    out.extend(_family_small())
     n = 900 if quick else 20000
     for i in range(n):
       out.append(_gen_traffic(rng, 'heap' if i % 3 else 'aperture', prop))
   elif prop == 'C04':
+    out.extend(_family_small())
     n = 1100 if quick else 24000
     for i in range(n):
       out.append(_gen_traffic(rng, 'heap' if i % 3 else 'aperture', prop))
